@@ -81,8 +81,13 @@ func TestC07(t *testing.T) {
 		for i, n := 0, rapid.IntRange(1, 3).Draw(t, "npipes"); i < n; i++ {
 			addPipe()
 		}
-		if err := sock.SetOption(mangos.OptionSurveyTime, 30*time.Second); err != nil {
+		// no survey expires during a history: the survey time is either long or 0 (documented: never)
+		surveyTime := rapid.SampledFrom([]time.Duration{30 * time.Second, 30 * time.Second, 0}).Draw(t, "surveyTime")
+		if err := sock.SetOption(mangos.OptionSurveyTime, surveyTime); err != nil {
 			t.Fatalf("harness: %v", err)
+		}
+		if surveyTime == 0 {
+			stats.Class("machine_with_survey_time_0")
 		}
 		ctxs := []*mctx{{c: sock, isSock: true}}
 		serial := 0
@@ -96,63 +101,55 @@ func TestC07(t *testing.T) {
 			return i, ctxs[i]
 		}
 
+		var doSurvey func(ci int, c *mctx)
 		acts := map[string]func(*rapid.T){
 			"survey": func(t *rapid.T) {
 				ci, c := pick("ctx")
-				c.n++
-				tag := fmt.Sprintf("SURVEY-%d-%d", ci, c.n)
-				counts := make([]int, len(pipes))
-				for i, p := range pipes {
-					counts[i] = p.SentCount()
+				doSurvey(ci, c)
+			},
+			"surveyWhileRecvWaits": func(t *rapid.T) {
+				// A Recv is waiting for responses to the current survey when the same context starts
+				// a new one: the old survey is abandoned, so the waiting Recv ends (without a response)
+				// and a response to the old survey that arrives afterwards goes nowhere.
+				ci, c := pick("ctx")
+				if c.closed || c.cur == 0 || len(c.queue) > 0 {
+					t.Skip("needs a survey in progress with nothing queued")
 				}
-				err := c.c.Send([]byte(tag))
-				logf("survey(ctx%d,%s)=%s", ci, tag, errName(err))
-				canon += "S"
-				if c.closed {
-					if err != mangos.ErrClosed {
-						fail("send-closed", "Send on closed ctx %d: %v, want ErrClosed", ci, err)
+				if err := c.c.SetOption(mangos.OptionRecvDeadline, 3*time.Second); err != nil {
+					t.Fatalf("harness: %v", err)
+				}
+				type rr struct {
+					b   []byte
+					err error
+				}
+				ch := make(chan rr, 1)
+				go func() { b, err := c.c.Recv(); ch <- rr{b, err} }()
+				time.Sleep(5 * time.Millisecond)
+				oldID := c.cur
+				logf("recvAsync(ctx%d)", ci)
+				doSurvey(ci, c)
+				if c.cur == oldID {
+					return // the survey failed; already reported
+				}
+				wire := make([]byte, 4, 32)
+				binary.BigEndian.PutUint32(wire, oldID)
+				wire = append(wire, []byte("LATE-FOR-ABANDONED")...)
+				pi := rapid.IntRange(0, len(pipes)-1).Draw(t, "pipe")
+				res := pipes[pi].Inject(wire, 3*time.Second)
+				logf("respond(pipe%d,abandoned,%08x)=%d", pi, oldID, res)
+				select {
+				case r := <-ch:
+					logf("  waiting recv(ctx%d)=(%q,%s)", ci, r.b, errName(r.err))
+					if r.err == nil {
+						fail("abandoned-survey-delivered", "a Recv that was waiting on ctx %d when a new survey replaced survey %08x returned %q", ci, oldID, r.b)
 					}
-					return
+				case <-time.After(time.Second):
+					fail("abandoned-recv-not-ended", "a Recv that was waiting on ctx %d when a new survey replaced survey %08x was still blocked 1s later", ci, oldID)
+					<-ch
 				}
-				if err != nil {
-					fail("send-error", "survey on ctx %d failed: %v", ci, err)
-					return
-				}
-				var id uint32
-				for i, p := range pipes {
-					if !p.WaitSent(counts[i]+1, 3*time.Second) {
-						fail("survey-not-broadcast", "survey %s did not reach pipe %d (of %d connected) within 3s", tag, i, len(pipes))
-						return
-					}
-					log := p.SentLog()
-					d := log[counts[i]].Data
-					if len(d) < 4 || string(d[4:]) != tag {
-						fail("survey-bytes", "pipe %d got %x, want id||%q", i, d, tag)
-						return
-					}
-					x := binary.BigEndian.Uint32(d)
-					if i == 0 {
-						id = x
-					} else if x != id {
-						fail("survey-id-differs", "survey %s went out with different ids %08x / %08x", tag, id, x)
-					}
-					if len(log) > counts[i]+1 {
-						fail("survey-duplicated", "pipe %d got %d messages for one survey", i, len(log)-counts[i])
-					}
-				}
-				if id&0x80000000 == 0 {
-					fail("survey-id-bit", "survey id %08x lacks the top bit", id)
-				}
-				for oi, o := range ctxs {
-					if o != c && o.cur == id {
-						fail("id-collision", "ctx %d and %d share survey id %08x", ci, oi, id)
-					}
-				}
-				if c.cur != 0 {
-					c.old = append(c.old, c.cur)
-				}
-				c.cur, c.tag, c.queue = id, tag, nil
-				multi[ci] = true
+				stats.Class("survey_replaced_under_waiting_recv")
+				stale++
+				canon += "W"
 			},
 			"respond": func(t *rapid.T) {
 				pi := rapid.IntRange(0, len(pipes)-1).Draw(t, "pipe")
@@ -277,7 +274,7 @@ func TestC07(t *testing.T) {
 					fail("opencontext", "OpenContext: %v", err)
 					return
 				}
-				if err := c.SetOption(mangos.OptionSurveyTime, 30*time.Second); err != nil {
+				if err := c.SetOption(mangos.OptionSurveyTime, surveyTime); err != nil {
 					t.Fatalf("harness: %v", err)
 				}
 				ctxs = append(ctxs, &mctx{c: c})
@@ -322,6 +319,62 @@ func TestC07(t *testing.T) {
 				logf("addPipe")
 				canon += "P"
 			},
+		}
+		doSurvey = func(ci int, c *mctx) {
+			c.n++
+			tag := fmt.Sprintf("SURVEY-%d-%d", ci, c.n)
+			counts := make([]int, len(pipes))
+			for i, p := range pipes {
+				counts[i] = p.SentCount()
+			}
+			err := c.c.Send([]byte(tag))
+			logf("survey(ctx%d,%s)=%s", ci, tag, errName(err))
+			canon += "S"
+			if c.closed {
+				if err != mangos.ErrClosed {
+					fail("send-closed", "Send on closed ctx %d: %v, want ErrClosed", ci, err)
+				}
+				return
+			}
+			if err != nil {
+				fail("send-error", "survey on ctx %d failed: %v", ci, err)
+				return
+			}
+			var id uint32
+			for i, p := range pipes {
+				if !p.WaitSent(counts[i]+1, 3*time.Second) {
+					fail("survey-not-broadcast", "survey %s did not reach pipe %d (of %d connected) within 3s", tag, i, len(pipes))
+					return
+				}
+				log := p.SentLog()
+				d := log[counts[i]].Data
+				if len(d) < 4 || string(d[4:]) != tag {
+					fail("survey-bytes", "pipe %d got %x, want id||%q", i, d, tag)
+					return
+				}
+				x := binary.BigEndian.Uint32(d)
+				if i == 0 {
+					id = x
+				} else if x != id {
+					fail("survey-id-differs", "survey %s went out with different ids %08x / %08x", tag, id, x)
+				}
+				if len(log) > counts[i]+1 {
+					fail("survey-duplicated", "pipe %d got %d messages for one survey", i, len(log)-counts[i])
+				}
+			}
+			if id&0x80000000 == 0 {
+				fail("survey-id-bit", "survey id %08x lacks the top bit", id)
+			}
+			for oi, o := range ctxs {
+				if o != c && o.cur == id {
+					fail("id-collision", "ctx %d and %d share survey id %08x", ci, oi, id)
+				}
+			}
+			if c.cur != 0 {
+				c.old = append(c.old, c.cur)
+			}
+			c.cur, c.tag, c.queue = id, tag, nil
+			multi[ci] = true
 		}
 		acts["survey2"] = acts["survey"]
 		acts["respond2"] = acts["respond"]
